@@ -354,20 +354,20 @@ Definition Done (c d : Z) (qs : list queue) (gs : list ghost) (h : Z) : Prop :=
 (* how a queue and its history may change while the local inputs are registered: not at all, or -
    for a queue that is not predicting and already reaches the current frame - by appended inputs *)
 Definition grows (c : Z) (q : queue) (hist : list Z) (q' : queue) (hist' : list Z) : Prop :=
-  q_first_incorrect q' = q_first_incorrect q /\ q_pred q' = q_pred q /\
+  q_first_incorrect q' = q_first_incorrect q /\ (q_pred q' = q_pred q /\ q_last_requested q' = q_last_requested q) /\
   (hist' = hist \/ (c <= hlen hist /\ pi_frame (q_pred q) = NULL /\ q_first_incorrect q = NULL /\
                     exists ext, hist' = hist ++ ext)).
 Definition grows_all (c : Z) (qs : list queue) (gs : list ghost) (qs' : list queue) (gs' : list ghost) : Prop :=
   forall h q' gh', nth_error qs' h = Some q' -> nth_error gs' h = Some gh' ->
     exists q gh, nth_error qs h = Some q /\ nth_error gs h = Some gh /\ grows c q (fst gh) q' (fst gh').
 Lemma grows_all_refl : forall c qs gs, grows_all c qs gs qs gs.
-Proof. intros c qs gs h q gh A B. exists q, gh. split; [exact A|]. split; [exact B|]. split; [reflexivity|]. split; [reflexivity|left; reflexivity]. Qed.
+Proof. intros c qs gs h q gh A B. exists q, gh. split; [exact A|]. split; [exact B|]. split; [reflexivity|]. split; [split; reflexivity|left; reflexivity]. Qed.
 Lemma grows_all_trans : forall c a ga b gb e ge, grows_all c a ga b gb -> grows_all c b gb e ge -> grows_all c a ga e ge.
 Proof.
   intros c a ga b gb e ge H1 H2 h q' gh' A B.
-  destruct (H2 h q' gh' A B) as (q1 & gh1 & A1 & B1 & (F1 & P1 & G1)).
-  destruct (H1 h q1 gh1 A1 B1) as (q0 & gh0 & A0 & B0 & (F0 & P0 & G0)).
-  exists q0, gh0. split; [exact A0|]. split; [exact B0|]. split; [congruence|]. split; [congruence|].
+  destruct (H2 h q' gh' A B) as (q1 & gh1 & A1 & B1 & (F1 & (P1 & R1) & G1)).
+  destruct (H1 h q1 gh1 A1 B1) as (q0 & gh0 & A0 & B0 & (F0 & (P0 & R0) & G0)).
+  exists q0, gh0. split; [exact A0|]. split; [exact B0|]. split; [congruence|]. split; [split; congruence|].
   destruct G0 as [G0|(X1 & X2 & X3 & ext0 & X4)].
   - rewrite <- G0. destruct G1 as [G1|(Y1 & Y2 & Y3 & Y4)]; [left; exact G1|right]. rewrite <- P0, <- F0. repeat split; assumption.
   - right. split; [exact X1|]. split; [exact X2|]. split; [exact X3|].
@@ -501,9 +501,9 @@ Proof.
     destruct (Nat.eq_dec (Z.to_nat h) h0) as [Eh|Eh].
     + subst h0. rewrite nth_error_updz_same in B by lia. rewrite nth_error_updz_same in C by lia.
       injection B as <-. injection C as <-. exists q, (hist, low). split; [exact Eq|]. split; [exact Eg|].
-      cbn [fst]. split; [exact F'|]. split; [exact P'|]. right. split; [exact Hreach|]. split; [exact Hpn|]. split; [exact Hfq|]. eexists. exact Hext.
+      cbn [fst]. split; [exact F'|]. split; [split; [exact P'|exact R']|]. right. split; [exact Hreach|]. split; [exact Hpn|]. split; [exact Hfq|]. eexists. exact Hext.
     + rewrite nth_error_updz_other in B by exact Eh. rewrite nth_error_updz_other in C by exact Eh.
-      exists q0, gh0. split; [exact B|]. split; [exact C|]. split; [reflexivity|]. split; [reflexivity|left; reflexivity].
+      exists q0, gh0. split; [exact B|]. split; [exact C|]. split; [reflexivity|]. split; [split; reflexivity|left; reflexivity].
   - intros h0 gh0 C. subst gs'.
     destruct (Nat.eq_dec (Z.to_nat h) h0) as [Eh|Eh].
     + subst h0. rewrite nth_error_updz_same in C by lia. injection C as <-. exists (hist, low). split; [exact Eg|].
@@ -1206,7 +1206,8 @@ Lemma remote_progress : forall sp w d p gs pl f v e,
       s_queues (ps_sync p') = updz (s_queues (ps_sync p)) (Z.to_nat pl) q' /\
       q_first_incorrect q' = fi_after q v (hlen hist) /\ q_pred q' = pred_after q v (hlen hist) /\
       s_current (ps_sync p') = s_current (ps_sync p) /\
-      s_last_confirmed (ps_sync p') = s_last_confirmed (ps_sync p) /\ s_last_saved (ps_sync p') = s_last_saved (ps_sync p).
+      s_last_confirmed (ps_sync p') = s_last_confirmed (ps_sync p) /\ s_last_saved (ps_sync p') = s_last_saved (ps_sync p) /\
+      q_last_requested q' = q_last_requested q.
 Proof.
   intros sp w d p gs pl f v e HQS Hpl Hk Hf Hcap.
   pose proof HQS as [Hw Hd Hmode Hn Hconn Hgos HQ Hlast Hfr Hkinds Hpe Hsok].
